@@ -20,6 +20,8 @@ import (
 	"io"
 	"os"
 	"path/filepath"
+
+	"shanhu.io/g/errcode"
 )
 
 // UnzipDir unzips a zip file into a directory.
@@ -36,6 +38,9 @@ func UnzipDir(dir string, r *zip.Reader, clear bool) error {
 	for _, f := range r.File {
 		mod := f.Mode()
 
+		if !filepath.IsLocal(f.Name) {
+			return errcode.InvalidArgf("zip entry %q is not inside the directory", f.Name)
+		}
 		name := filepath.Join(dir, f.Name)
 		if mod.IsDir() {
 			if err := os.MkdirAll(name, mod); err != nil {
